@@ -1007,6 +1007,56 @@ pub mod verif_hooks {
     do_remapping_loop_one_device(&mut Adapter(driver), layout, verbose)
   }
 
+  /// The shipped `RealDriver` (errno mapping of the two readers, the writer, mio registration and
+  /// the mapping of mio tokens to devices) on file descriptors the simulator owns, e.g. pipes.
+  /// `poll_now` is the real `poll` with a zero timeout, so it never waits and reads no clock.
+  pub struct VerifRealDriver { inner: RealDriver, registry: Option<RealPollRegistry> }
+
+  impl VerifRealDriver {
+    pub fn from_fds(keyboard: std::os::unix::io::RawFd, uinput: std::os::unix::io::RawFd, tablet: Option<std::os::unix::io::RawFd>) -> VerifRealDriver {
+      let rw = RW {
+        r: DevInputReader { fd: keyboard },
+        w: DevInputWriter::verif_from_fd(uinput),
+        t: tablet.map(|fd| TabletModeSwitchReader { fd })
+      };
+      VerifRealDriver { inner: RealDriver { rw }, registry: None }
+    }
+    pub fn replace_uinput_fd(&mut self, uinput: std::os::unix::io::RawFd) {
+      self.inner.rw.w = DevInputWriter::verif_from_fd(uinput);
+    }
+    pub fn register_poll(&mut self) -> Result<(), String> {
+      self.registry = Some(self.inner.register_poll()?);
+      Ok(())
+    }
+    pub fn poll_now(&mut self) -> Result<VPoll, String> {
+      let registry = self.registry.as_mut().ok_or("poll before register_poll".to_string())?;
+      Ok(match self.inner.poll(registry, Some(Duration::from_millis(0)))? {
+        PollResult::DeviceEvent(ds) => VPoll::Devices(ds.into_iter().map(|d| match d {
+          Device::Keyboard => VDevice::Keyboard,
+          Device::Tablet => VDevice::Tablet
+        }).collect()),
+        PollResult::TimedOut => VPoll::TimedOut,
+        PollResult::Interrupted => VPoll::Interrupted
+      })
+    }
+    pub fn next_keyboard(&mut self) -> Result<VNext<Event>, String> {
+      Ok(match self.inner.next_keyboard()? {
+        Next::End => VNext::End,
+        Next::Busy => VNext::Busy,
+        Next::One(e) => VNext::One(e)
+      })
+    }
+    pub fn next_tablet(&mut self) -> Result<VNext<bool>, String> {
+      Ok(match self.inner.next_tablet()? {
+        Next::End => VNext::End,
+        Next::Busy => VNext::Busy,
+        Next::One(On) => VNext::One(true),
+        Next::One(Off) => VNext::One(false)
+      })
+    }
+    pub fn send(&mut self, evs: &Vec<Event>) -> Result<(), String> { self.inner.send(evs) }
+  }
+
   thread_local! {
     static SIM_NOW_US: Cell<u64> = Cell::new(0);
     static SIM_SLEPT_US: Cell<u64> = Cell::new(0);
